@@ -15,6 +15,7 @@ Model family (sizes, data, node classes and kernel assignment are drawn per conf
 
 After every kernel of the sequence a GibbsKernel of the harness ("probe") copies every stored value and every
 outdated flag of the model state it receives into probe_j.  Everything is read back from SamplingResults.
+A stored node counts as changed by a kernel when it differs by more than a few float32 ulps (see SAME_RTOL).
 """
 from __future__ import annotations
 
@@ -27,6 +28,14 @@ PARAMS = ["beta", "mu0", "log_sigma", "log_tau", "free"]
 KINDS = ["rw", "iwls", "mh", "gibbs", "hmc", "nuts"]
 MH_TYPE = {"rw", "iwls", "mh"}
 RTOL, ATOL = 2e-4, 2e-4
+# "unchanged" for the frame: equal up to a few float32 ulps.  Bit-identity is NOT demanded: XLA may materialise a fused
+# elementwise producer (e.g. the harness' Gibbs draw) once per consumer with different rounding (FMA contraction);
+# 1-ulp differences between the value a probe saw and the value carried on were observed on the unchanged tree.
+SAME_RTOL, SAME_ATOL = 2e-6, 1e-7
+
+
+def same(a, b):
+    return bool(np.allclose(a, b, rtol=SAME_RTOL, atol=SAME_ATOL, equal_nan=True))
 
 
 def gibbs_update(xp, old, eta_mean, free):
@@ -202,7 +211,7 @@ def run_config(cfg):
                 for ti, nm in enumerate(tracked):
                     a = prev[offs[ti]:offs[ti + 1]]
                     b = cur[offs[ti]:offs[ti + 1]]
-                    if not np.array_equal(a.view(np.uint32), b.view(np.uint32)):
+                    if not same(a, b):
                         changed.append(pos[nm])
                 mv = True if moved[j] is None else bool(moved[j][ch, t - nin])
                 fsteps.append({"kernel": j, "moved": mv, "changed": sorted(changed)})
@@ -212,7 +221,7 @@ def run_config(cfg):
             for ti, nm in enumerate(tracked):
                 if nm in samples:
                     sv = np.ravel(samples[nm][ch, t]).astype(np.float32)
-                    if not np.array_equal(sv.view(np.uint32), prev[offs[ti]:offs[ti + 1]].view(np.uint32)):
+                    if not same(sv, prev[offs[ti]:offs[ti + 1]]):
                         anomalies.append(f"chain {ch} iteration {t}: stored {nm} differs from the state the last kernel returned")
     case.update(fkernels=fkernels, fsteps=fsteps, anomalies=anomalies[:5])
     case["_steps_full"] = steps_full
